@@ -177,7 +177,9 @@ def evalCH (ms : MacroSem) (subs : CSubEnv) : Nat → MState → CExpr → Excep
             let σc : MState := { σ with locals := (sub.params.map (·.1)).zip vs }
             let σr ← execCHs ms subs fuel sub.body σc
             match lookupS "$ret" σr.locals with
-            | some v => .ok (v, { σ with mem := σr.mem, stores := σr.stores, new := σr.new, written := σr.written })
+            | some v => do
+                let v ← convC { signed := false, width := 64 } sub.ret v
+                .ok (v, { σ with mem := σr.mem, stores := σr.stores, new := σr.new, written := σr.written })
             | none => .error (.undef "routine without return value")
         | none =>
           match builtinSub name vs with
@@ -207,7 +209,9 @@ def evalCH (ms : MacroSem) (subs : CSubEnv) : Nat → MState → CExpr → Excep
                 let σc : MState := { σ with locals := (sub.params.map (·.1)).zip vs }
                 let σr ← execCHs ms subs fuel sub.body σc
                 match lookupS "$ret" σr.locals with
-                | some v => .ok (v, { σ with mem := σr.mem, stores := σr.stores, new := σr.new, written := σr.written })
+                | some v => do
+                    let v ← convC { signed := false, width := 64 } sub.ret v
+                    .ok (v, { σ with mem := σr.mem, stores := σr.stores, new := σr.new, written := σr.written })
                 | none => .error (.undef "routine without return value")
           | none => .error (.undef name)
     | .xmacro name exts _ =>
@@ -274,7 +278,11 @@ def execCH (ms : MacroSem) (subs : CSubEnv) : Nat → CStmt → MState → Excep
         let (_, σ) ← evalCH ms subs fuel σ e
         .ok σ
     | .ret e => do
+        -- C converts the returned value to the routine's return type. The type is known at the call site only: the value
+        -- is kept extended to 64 bit by its OWN signedness here and cut to the return type's width there (all types are
+        -- at most 64 bit wide, so this is the conversion from `typeOfC e` to the return type)
         let (v, σ) ← evalCH ms subs fuel σ e
+        let v ← convC (typeOfC e) { signed := (typeOfC e).signed, width := 64 } v
         .ok { σ with locals := setLocal σ.locals "$ret" v }
     | .vcall name exts args params => do
         let (vs, σ) ← evalCHArgs ms subs fuel σ args params
